@@ -8,6 +8,7 @@
 From RecordUpdate Require Import RecordUpdate.
 From Model Require Import Base SeqNum Wire Conn Server.
 From Proofs Require Import ServerP C11P.
+From Proofs Require C11QuietP.
 Import RecordSetNotations.
 Open Scope Z_scope.
 
@@ -55,8 +56,34 @@ Theorem C11_recv_unauthentic_drop : forall c now d orcs k,
 Proof. exact recv_unauthentic_drop_proof. Qed.
 Print Assumptions C11_recv_unauthentic_drop.
 
+(* 4. strangers elicit nothing but a hello for a hello: a datagram from an address in neither pool that is not typed
+      CLIENT_HELLO, a datagram from a half-open address that is not typed CHALLENGE_RESP, and bytes whose header
+      does not parse leave the whole server state untouched and produce NO output — no reply datagram, no handler
+      event — whatever the body and the handshake oracle answers are ... *)
+Theorem C11_stranger_elicits_nothing : forall h e s now a d xs,
+  pget a (s_conns s) = None ->
+  match pget a (s_temp s) with
+  | None => h_type (d_hdr d) <> CLIENT_HELLO
+  | Some _ => h_type (d_hdr d) <> CHALLENGE_RESP
+  end ->
+  disp_item h e s now a d xs = (s, []).
+Proof.
+  intros h e s now a d xs Hc Ht. destruct (pget a (s_temp s)) as [cl|] eqn:Et.
+  - exact (C11QuietP.half_open_ignored h e s now a d xs cl Hc Et Ht).
+  - exact (C11QuietP.stranger_ignored h e s now a d xs Hc Et Ht).
+Qed.
+Print Assumptions C11_stranger_elicits_nothing.
+
+(*    ... and so does any BATCH of such datagrams, of any length, in one loop iteration (the dispatch phase returns
+      the state it started from and an empty output list): the part of no-amplification that is structural *)
+Theorem C11_quiet_batch : forall h e s now q,
+  Forall (C11QuietP.quiet_item s) q -> disp_all h e s now q = (s, []).
+Proof. exact C11QuietP.quiet_batch. Qed.
+Print Assumptions C11_quiet_batch.
+
 (* no_amplification (for every address, while it is not in `connections`: bytes_out <= bytes_in,
-   given |server hello| <= |minimal accepted client hello|) is NOT proved here; it is checked by the
+   given |server hello| <= |minimal accepted client hello|) is NOT proved in full here — theorems 4 show that only a
+   well-formed CLIENT_HELLO (resp. CHALLENGE_RESP) gets any reaction; the byte count of that reaction is checked by the
    implementation-level oracle of harness/props/C11.py (per-address byte counters at the mock socket)
    together with the measured premise. *)
 
@@ -87,3 +114,20 @@ Example C11_hello_answered_once :
   exists hd p, snd (srv_step quiet e1500 (srv0 cfg0 []) (step1 (7, 5000)))
                = [SHello 0 (7, 5000) 1073741829 77; SEv HUpdate; SSend (7, 5000) hd None p].
 Proof. vm_compute. eauto. Qed.
+
+(* non-vacuity of theorem 4: keep-alive / application / disconnect / challenge typed datagrams and unparsable bytes
+   from five strangers in one batch *)
+Definition junk_item (a : addr) (t : ptype) : witem :=
+  {| w_addr := a;
+     w_raw := match encode_header {| h_to_server := true; h_ctime := 100; h_seq := 9; h_ack := 0; h_type := t; h_len := 3;
+                                     h_count := 1; h_ackbits := 0 |} with Ok b => b | Err _ => [] end;
+     w_body := Clear [x00; x01; x02]; w_hs := [] |}.
+Example C11_quiet_batch_example :
+  let s0 := srv0 cfg0 [] in
+  let q := [junk_item (9, 1) KEEP_ALIVE; junk_item (9, 2) APP; junk_item (9, 3) DISCONNECT; junk_item (9, 4) CHALLENGE_RESP;
+            {| w_addr := (9, 5); w_raw := [x00; x01]; w_body := Bad; w_hs := [] |}] in
+  Forall (C11QuietP.quiet_item s0) q /\ disp_all quiet e1500 s0 (100 * TICKS) q = (s0, []).
+Proof.
+  split; [|vm_compute; reflexivity].
+  repeat (apply Forall_cons; [vm_compute; first [exact I | split; [reflexivity|discriminate]]|]). apply Forall_nil.
+Qed.
